@@ -862,11 +862,26 @@ func (d *Data) newLayer(z0, z1 int32) *layerT {
 }
 
 func (layer *layerT) extend(rle *indexRLE) {
-	layer.activeBlocks = append(layer.activeBlocks, rle)
-
 	y := rle.start.Value(1)
 	x0 := rle.start.Value(0)
 	x1 := x0 + int32(rle.span) - 1
+
+	// Spans arrive sorted by z, y, x0.  A span that overlaps the previous one is merged into
+	// it so that a block covered by two stored spans is counted as one active block.
+	if n := len(layer.activeBlocks); n > 0 {
+		prev := layer.activeBlocks[n-1]
+		prevX1 := prev.start.Value(0) + int32(prev.span) - 1
+		if prev.start.Value(2) == rle.start.Value(2) && prev.start.Value(1) == y && x0 <= prevX1 {
+			if x1 > prevX1 {
+				prev.span = uint32(x1 - prev.start.Value(0) + 1)
+				if layer.maxX < x1 {
+					layer.maxX = x1
+				}
+			}
+			return
+		}
+	}
+	layer.activeBlocks = append(layer.activeBlocks, rle)
 
 	if layer.minX > x0 {
 		layer.minX = x0
